@@ -258,7 +258,7 @@ func (ds *describer) d(v ssa.Value, depth int) string {
 		}
 		return "free:" + x.Name()
 	case *ssa.Global:
-		return "global:" + short(x.Pkg.Pkg.Path()+"."+x.Name())
+		return "global:" + short(x.Pkg.Pkg.Path()+"."+refGlobalName(x))
 	case *ssa.Function:
 		return "func:" + fname(x)
 	case *ssa.Builtin:
@@ -268,8 +268,7 @@ func (ds *describer) d(v ssa.Value, depth int) string {
 	case *ssa.FieldAddr:
 		return "&" + ds.fieldOf(x.X, x.Field, depth)
 	case *ssa.Field:
-		st := x.X.Type().Underlying().(*types.Struct)
-		return ds.d(x.X, depth+1) + "." + st.Field(x.Field).Name()
+		return ds.d(x.X, depth+1) + "." + refFieldName(x.X.Type(), x.Field)
 	case *ssa.IndexAddr:
 		return "&" + ds.d(x.X, depth+1) + "[" + ds.d(x.Index, depth+1) + "]"
 	case *ssa.Index:
@@ -437,10 +436,10 @@ func (ds *describer) fieldOf(base ssa.Value, idx int, depth int) string {
 	if p, ok := t.Underlying().(*types.Pointer); ok {
 		t = p.Elem()
 	}
-	st, ok := t.Underlying().(*types.Struct)
+	_, ok := t.Underlying().(*types.Struct)
 	name := fmt.Sprintf("f%d", idx)
 	if ok {
-		name = st.Field(idx).Name()
+		name = refFieldName(t, idx)
 	}
 	// a field of a value of a NEW struct type (one that does not exist in the reference tree: a
 	// closure turned into a small struct with a method) that is set exactly once, in the
@@ -459,7 +458,7 @@ func (ds *describer) fieldOf(base ssa.Value, idx int, depth int) string {
 // helperFieldValue: see fieldOf. base is the struct (or pointer to it) whose field idx is read.
 func helperFieldValue(base ssa.Value, t types.Type, idx int) ssa.Value {
 	nt, ok := t.(*types.Named)
-	if !ok || nt.Obj().Pkg() == nil || baselineFuncs["type:"+nt.Obj().Pkg().Path()+"."+nt.Obj().Name()] {
+	if !ok || nt.Obj().Pkg() == nil || baselineFuncs["type:"+nt.Obj().Pkg().Path()+"."+refTypeNameOf(nt)] {
 		return nil
 	}
 	st := nt.Underlying().(*types.Struct)
@@ -671,12 +670,10 @@ func fieldLoad(v ssa.Value) (base ssa.Value, field string, ok bool) {
 			return nil, "", false
 		}
 		if fa, ok := x.X.(*ssa.FieldAddr); ok {
-			t := fa.X.Type().Underlying().(*types.Pointer).Elem().Underlying().(*types.Struct)
-			return fa.X, t.Field(fa.Field).Name(), true
+			return fa.X, refFieldName(fa.X.Type(), fa.Field), true
 		}
 	case *ssa.Field:
-		t := x.X.Type().Underlying().(*types.Struct)
-		return x.X, t.Field(x.Field).Name(), true
+		return x.X, refFieldName(x.X.Type(), x.Field), true
 	}
 	return nil, "", false
 }
@@ -772,7 +769,7 @@ func structLit(v ssa.Value) (map[string]ssa.Value, bool) {
 	if !ok {
 		return nil, false
 	}
-	st, ok := pt.Elem().Underlying().(*types.Struct)
+	_, ok = pt.Elem().Underlying().(*types.Struct)
 	if !ok {
 		return nil, false
 	}
@@ -784,7 +781,7 @@ func structLit(v ssa.Value) (map[string]ssa.Value, bool) {
 		}
 		for _, r2 := range referrers(fa) {
 			if s, ok := r2.(*ssa.Store); ok && s.Addr == fa {
-				name := st.Field(fa.Field).Name()
+				name := refFieldName(al.Type(), fa.Field)
 				if _, dup := out[name]; dup {
 					return nil, false
 				}
@@ -1013,8 +1010,7 @@ func deref(v ssa.Value) ssa.Value {
 
 // fieldName is the name of the field addressed by fa.
 func fieldName(fa *ssa.FieldAddr) string {
-	t := fa.X.Type().Underlying().(*types.Pointer).Elem().Underlying().(*types.Struct)
-	return t.Field(fa.Field).Name()
+	return refFieldName(fa.X.Type(), fa.Field)
 }
 
 // ---- fields that are only ever set when their object is built ------------------------------
@@ -1278,4 +1274,68 @@ func builtStrings(fn *ssa.Function) []ssa.Value {
 		}
 	}
 	return out
+}
+
+// refGlobalName: the reference name of a package-level variable (declrename.go).
+func refGlobalName(g *ssa.Global) string {
+	if g.Pkg != nil {
+		if old, ok := refVar[g.Pkg.Pkg.Path()+"."+g.Name()]; ok {
+			return old
+		}
+	}
+	return g.Name()
+}
+
+var fieldNeverReadMemo = map[string]bool{}
+
+// fieldNeverRead: in the whole module the field addressed by fa is only ever stored to — never
+// loaded, never has its address passed on, and its struct is never copied as a value, compared
+// or handed to anything that could read it by reflection (the struct type is unexported).
+func fieldNeverRead(prog *ssa.Program, fa *ssa.FieldAddr) bool {
+	pt, ok := fa.X.Type().Underlying().(*types.Pointer)
+	if !ok {
+		return false
+	}
+	nt, ok := pt.Elem().(*types.Named)
+	if !ok || nt.Obj().Exported() {
+		return false
+	}
+	key := nt.String() + "#" + fmt.Sprint(fa.Field)
+	if v, ok := fieldNeverReadMemo[key]; ok {
+		return v
+	}
+	res := true
+	for _, f := range moduleFuncsOf(prog) {
+		for _, b := range f.Blocks {
+			for _, in := range b.Instrs {
+				switch x := in.(type) {
+				case *ssa.FieldAddr:
+					if x.Field != fa.Field || !types.Identical(x.X.Type(), fa.X.Type()) {
+						continue
+					}
+					for _, r := range referrers(x) {
+						switch u := r.(type) {
+						case *ssa.Store:
+							if u.Addr != ssa.Value(x) {
+								res = false
+							}
+						case *ssa.DebugRef:
+						default:
+							res = false
+						}
+					}
+				case *ssa.Field:
+					if x.Field == fa.Field && types.Identical(x.X.Type(), pt.Elem()) {
+						res = false
+					}
+				case *ssa.MakeInterface:
+					if types.Identical(x.X.Type(), pt.Elem()) || types.Identical(x.X.Type(), fa.X.Type()) {
+						res = false // the struct (or a pointer to it) goes into an interface: it could be printed
+					}
+				}
+			}
+		}
+	}
+	fieldNeverReadMemo[key] = res
+	return res
 }
